@@ -3,6 +3,7 @@
 use std::io::{BufRead, BufWriter, Write};
 
 mod simfs;
+mod suite_filter;
 mod suite_log;
 mod util;
 
@@ -14,6 +15,8 @@ fn main() {
     let f: fn(&str) -> String = match suite {
         "log" => suite_log::run_log,
         "crcmask" => suite_log::run_crcmask,
+        "bloom" => suite_filter::run_bloom,
+        "fblock" => suite_filter::run_fblock,
         _ => panic!("unknown suite {}", suite),
     };
     let stdin = std::io::stdin();
